@@ -352,6 +352,15 @@ func c03Judge(id string, r probeResult, derived bool, segs [][]byte, gaps []time
 		}
 		out = append(out, [2]string{k, fmt.Sprintf("%s: handler returned (connection closed) after %v, deadline %v", id, r.returnedAt, r.deadline)})
 	}
+	if r.returnedAt > r.deadline+time.Millisecond {
+		// the deadline is drawn once, on arrival; a connection that is held longer for some streams than for others
+		// (e.g. the clock restarted when the last transport ruled itself out) reacts to how far the probe got
+		k := "held-past-deadline"
+		if derived {
+			k += ":secret-derived-input"
+		}
+		out = append(out, [2]string{k, fmt.Sprintf("%s: deadline %v after arrival, handler returned (connection closed) only after %v", id, r.deadline, r.returnedAt)})
+	}
 	// everything offered before the deadline must have been read
 	offered := 0
 	at := time.Duration(0)
